@@ -1125,6 +1125,11 @@ def f12_gap_search(ctx) -> None:
     # the search itself
     loops = [l for l in walk_local(f) if isinstance(l, ast.For) and norm(l.iter) == "enumerate(self._preimage_count)" and isinstance(l.target, ast.Tuple) and len(l.target.elts) == 2]
     if len(loops) != 1:
+        alt = [l for l in walk_local(f) if isinstance(l, ast.For) and isinstance(l.iter, ast.Call) and norm(l.iter.func) == "enumerate" and "_preimage_count" in norm(l.iter)]
+        if alt:
+            ctx.violation("F12", alt[0].iter, f"preimage_gap scans `{norm(alt[0].iter)[:70]}`, not the whole histogram from level 0: a run of empty levels that starts at the bottom "
+                          "is measured short (or the levels are numbered off by one against the sentinel), and the gap is put where finite classes still climb")
+            return
         raise AnalysisError("F12: preimage_gap no longer scans enumerate(self._preimage_count)")
     lp = loops[0]
     i, v = (norm(e) for e in lp.target.elts)
